@@ -11,6 +11,13 @@ def drain():
     return _verif.drain()
 
 
+def quiet(f, *a, **k):
+    """run f with the progress bars of verbose >= 1 (written to stderr) kept out of the check's output"""
+    import contextlib, io
+    with contextlib.redirect_stderr(io.StringIO()), contextlib.redirect_stdout(io.StringIO()):
+        return f(*a, **k)
+
+
 def batch_text(b):
     return "none" if b is None else ("full" if b == "full" else str(b))
 
@@ -35,6 +42,9 @@ def run(R):
               "to out-of-gamut rows in one call): the batch grid for two sample counts on randomly drawn shapes (gaussian, poisson), every "
               "per-sample-weights case a second time on a randomly drawn shape, and the row permutation / duplication / drop / append also "
               "with one weight vector per sample (2-D W whose rows move with their targets) on a randomly drawn shape. "
+              "Options that must not interact with the batch size: the documented progress display (verbose=1) is switched on for a random "
+              "~40%% of the grid cells and of the permutation / duplication calls (the batch-size-1 reference of each group keeps verbose=0 "
+              "or 1 as drawn); a call that raises with it is a failure like any other. "
               "Non-trivial: n mod bs != 0 or bs > n (padded path) with distinct rows." % NMAX)
     rng0 = R.rng(0)
     nf, ns = 3, 4
@@ -129,8 +139,14 @@ def run(R):
             R.count("padded:%s" % padded)
             # same values, another representation (implementation side only)
             Bg = as_given(R.rng(21, gi, models.index(model)), B, R, "B")
+            # the documented progress display: an option that each batch size must work with (own random stream)
+            vb = int(R.rng(41, gi, models.index(model)).random() < 0.4)
+            R.count("verbose:%d" % vb)
+            if vb:
+                c["verbose"] = vb
+                R.count("verbose=1:padded:%s" % padded)
             drain()
-            st, out = call(fit, model, Bg, bs, sysname)
+            st, out = call(quiet, fit, model, Bg, bs, sysname, verbose=vb)
             ev = [e for e in drain() if e["event"] == "batch"]
             nontriv = ((model, n, batch_text(bs)) if sysname == "under" else (model, n, batch_text(bs), sysname)) if (padded and n >= 1) else None
             R.case(c, nontriv, sample=(nontriv is not None and model == "gaussian" and n == 4))
@@ -320,9 +336,11 @@ def run(R):
                 W2 = None
                 if Wm is not None:
                     W2 = as_given(rr, Wm[idx] if name != "append" else np.vstack([Wm, Wapp]), R, "Wmeta")
-                st2, o2 = call(fit, model, B2, bs, sysname, W2)
+                vb = int(rr.random() < 0.4)
+                R.count("meta-verbose:%d" % vb)
+                st2, o2 = call(quiet, fit, model, B2, bs, sysname, W2, verbose=vb)
                 if st2 != "ok":
-                    R.failB(dict(c, variant=name, impl_error=o2), "fit of %s rows failed: %s" % (name, o2), "C05:%s:raises:%s:%s" % (model, st2, "bs>1" if bs > 1 else "bs=1")); continue
+                    R.failB(dict(c, variant=name, verbose=vb, impl_error=o2), "fit of %s rows (verbose=%d) failed: %s" % (name, vb, o2), "C05:%s:raises:%s:%s" % (model, st2, "bs>1" if bs > 1 else "bs=1")); continue
                 exp = base_out[1][idx] if name != "append" else base_out[1]
                 got = o2[1] if name != "append" else o2[1][:n]
                 if np.abs(got - exp).max() > (1e-2 if model == "poisson" else 2e-4):
